@@ -60,6 +60,8 @@ def check(ctx):
                      'the resurrector marks the endpoint down, fails fast and starts retrying only on that signal')
   c08.r4(ctx)
   balancer_close(ctx)
+  channel_closers(ctx)
+  socket_close(ctx)
   from . import c07
   c07.dead_release_keeps_subscription(ctx, 'C09.R5')
   from . import c04
@@ -421,3 +423,38 @@ def balancer_close(ctx):
       ctx.ob('C09.R4', f, 'the members are closed from a snapshot of the heap array', snap,
              'Close iterates the live self._heap while channel.Close() re-enters the balancer (release of failed in-flight requests swaps heap slots): a member is skipped and keeps its connection and resurrector', why)
   ctx.ob('C09.R4', f, 'closing the balancer closes every member channel, whatever state it reports', ok, what, why)
+
+
+def channel_closers(ctx):
+  """A member's channel -- the resurrector that retries its endpoint -- is closed only when the member leaves (or the balancer itself is closed): a failed open or a
+  fault is the resurrector's business."""
+  prog = ctx.prog
+  why = ('ResurrectorSink.Close() unsubscribes its fault handler and kills the retry greenlet: a balancer that closes the channel of a member whose open failed (and stays a '
+         'member) switches the retries off -- the endpoint is never reconnected to, however long it has been reachable again')
+  who = set()
+  for rel in ('scales/loadbalancer/heap.py', 'scales/loadbalancer/aperture.py', 'scales/loadbalancer/base.py'):
+    for f in prog.all_funcs:
+      if f.module.rel != rel:
+        continue
+      for c in walk_no_nested(f.node):
+        if isinstance(c, ast.Call) and isinstance(c.func, ast.Attribute) and c.func.attr == 'Close' and U(c.func.value).endswith('channel'):
+          who.add(f.qualname)
+  allowed = {'HeapBalancerSink.Close', 'HeapBalancerSink._RemoveSink', 'HeapBalancerSink.__Put'}
+  ctx.ob('C09.R4', prog.func('scales/loadbalancer/heap.py', 'HeapBalancerSink._RemoveSink'), 'member channels are closed only on removal, last release of a removed member, or balancer close',
+         who <= allowed and len(who) >= 2, 'member channels are closed from %s' % sorted(who - allowed or who), why)
+
+
+def socket_close(ctx):
+  """ScalesSocket.close() gets to handle.close() without anything that can raise in front of it."""
+  prog = ctx.prog
+  f = prog.func('scales/scales_socket.py', 'ScalesSocket.close')
+  why = ('close() runs inside the transports\' shutdown (state already Closed, fault signal not yet raised, in-flight requests not yet failed): an exception from a call made before '
+         'handle.close() -- shutdown() on a connection the peer reset raises ENOTCONN -- aborts the shutdown half-way: nobody is told, the resurrector never retries')
+  for ev, ex in enum_paths(ctx, f):
+    calls_ = [e.node for e in ev if e.kind == 'call']
+    idx = [i for i, c in enumerate(calls_) if isinstance(c.func, ast.Attribute) and c.func.attr == 'close' and 'handle' in U(c.func.value)]
+    if not idx:
+      continue
+    tries = [t for t in ast.walk(f.node) if isinstance(t, ast.Try) and any(h.type is None or 'Exception' in U(h.type) or 'error' in U(h.type) for h in t.handlers)]
+    before = [c for c in calls_[:idx[0]] if not any(any(x is c for x in ast.walk(b)) for t in tries for b in t.body)]
+    ctx.ob('C09.R4', f, 'nothing that can raise runs before handle.close()', not before, 'calls before handle.close(): %s' % [U(c)[:50] for c in before], why)
